@@ -319,6 +319,30 @@ pub fn replay_parse(rep: &mut Report, rec: &J) {
 	if let Some(tok) = rec.get("tok") {
 		check_typed_tokens(rep, &ctx, &s, o, tok);
 	}
+	// Errors are absorbing (MC_ParserTree!ErrorsAbsorb): an outcome decided at a character inside the input is the
+	// outcome of every extension of the input.  The vector carries the tree's alphabet; every one-token extension
+	// (and, for every 8th vector, every two-token extension) must give the same outcome.
+	if let Some(ext) = rec.get("ext").and_then(|e| e.as_array()) {
+		if !ext.is_empty() {
+			let toks: Vec<String> = ext.iter().filter_map(cps_to_string).collect();
+			let deep = rep.counters["parse_vectors"] % 8 == 0;
+			let mut check = |rep: &mut Report, t: String| {
+				let r = project_result(guarded(|| Value::parse_str_with(&t, o)));
+				rep.count("parse_calls");
+				rep.count("extension_parses");
+				let ectx = json!({"w": str_to_cps(&t), "text": show(&t), "o": rec["o"], "extension_of": w, "vector": {"k": "parse", "w": str_to_cps(&t), "o": rec["o"], "out": exp}});
+				compare_outcome(rep, &ectx, "parse_str_with (input extended beyond the decided error)", exp, &r, strict);
+			};
+			for t1 in &toks {
+				check(rep, format!("{s}{t1}"));
+				if deep {
+					for t2 in &toks {
+						check(rep, format!("{s}{t1}{t2}"));
+					}
+				}
+			}
+		}
+	}
 	// C03, iterators that announce an enormous length: when the outcome is decided at a character inside the
 	// input, the same error must come back from an iterator whose size_hint lower bound is astronomically large
 	// (the text followed by usize::MAX/4 spaces); nothing may be sized by the announced length
